@@ -387,7 +387,8 @@ func contains(keys []string, key string) bool {
 }
 
 func validateDocument(doc document.Document) error {
-	if doc.ID() != "" {
+	// (an id of any JSON type: ID() reads strings only)
+	if _, ok := doc[document.IDProperty]; ok {
 		return errors.New("document must NOT have the id property")
 	}
 
